@@ -602,6 +602,74 @@ func c04RelatedSteps(c *Ctx) {
 	}
 }
 
+// windowRelatives: windows (centre, skew) that share their first counter, their last counter or their centre with
+// the base window (c1, s1) but have another skew - wide then narrow and narrow then wide.
+func windowRelatives(c1, s1 uint64) [][2]uint64 {
+	var out [][2]uint64
+	for s2 := uint64(0); s2 <= 10; s2++ {
+		if s2 == s1 {
+			continue
+		}
+		out = append(out, [2]uint64{c1 - s1 + s2, s2}, [2]uint64{c1 + s1 - s2, s2}, [2]uint64{c1, s2})
+	}
+	return out
+}
+
+// c03WindowRelatives / c04WindowRelatives: one goroutine, one secret and format; validation at the base window, then at
+// a relative (windowRelatives), then at the base again; every call gets the codes of all counters from one below the
+// lower of the two windows to one above the higher. Whatever is remembered about a window under less than (first
+// counter, length) - its start alone, its centre alone - answers the relative with the base's set of codes.
+func c03WindowRelatives(c *Ctx) {
+	rng := c.RNG.Fork(3150)
+	for w := 0; w < c.N(12, 150); w++ {
+		key := rng.Bytes(20)
+		d, a := 6+rng.Intn(5), rng.Intn(3)
+		c1, s1 := uint64(100+rng.Intn(1<<30)), uint64(1+rng.Intn(10))
+		mk := func(ctr, skew, lo, hi uint64, note string) vhotpCase {
+			var subs, notes []string
+			for x := lo; x <= hi; x++ {
+				subs = append(subs, ref.HOTP(key, x, d, a))
+				notes = append(notes, note)
+			}
+			return vhotpCase{KeyHex: hexs(key), Secret: ref.Base32EncodeNoPad(key), Counter: ctr, Skew: skew, Digits: uint8(d), Algo: uint8(a), Submitted: hexAll(subs), Notes: notes}
+		}
+		for _, r := range windowRelatives(c1, s1) {
+			lo, hi := min(c1-s1, r[0]-r[1])-1, max(c1+s1, r[0]+r[1])+1
+			judgeVHOTP(c, mk(c1, s1, lo, hi, "every counter around two related windows (base window)"))
+			judgeVHOTP(c, mk(r[0], r[1], lo, hi, "every counter around two related windows (window sharing its start, end or centre with the previous call's)"))
+			c.R.Count("related_window_history_calls", 2)
+		}
+	}
+}
+
+func c04WindowRelatives(c *Ctx) {
+	rng := c.RNG.Fork(4150)
+	for w := 0; w < c.N(12, 150); w++ {
+		key := rng.Bytes(20)
+		d, a := 6+rng.Intn(5), rng.Intn(3)
+		p := gen.Pick(rng, []uint64{0, 30, 30, 60, 1})
+		pp := p
+		if pp == 0 {
+			pp = 30
+		}
+		c1, s1 := uint64(100+rng.Intn(1<<30)), uint64(1+rng.Intn(10))
+		mk := func(step, skew, lo, hi uint64, note string) vtotpCase {
+			var subs, notes []string
+			for x := lo; x <= hi; x++ {
+				subs = append(subs, ref.HOTP(key, x, d, a))
+				notes = append(notes, note)
+			}
+			return vtotpCase{KeyHex: hexs(key), Secret: ref.Base32EncodeNoPad(key), At: gen.InstantSpec{Unix: int64(step*pp) + int64(rng.Intn(int(pp)))}, Period: p, Skew: skew, Digits: uint8(d), Algo: uint8(a), Submitted: hexAll(subs), Notes: notes}
+		}
+		for _, r := range windowRelatives(c1, s1) {
+			lo, hi := min(c1-s1, r[0]-r[1])-1, max(c1+s1, r[0]+r[1])+1
+			judgeVTOTP(c, mk(c1, s1, lo, hi, "every step around two related windows (base window)"))
+			judgeVTOTP(c, mk(r[0], r[1], lo, hi, "every step around two related windows (window sharing its start, end or centre with the previous call's)"))
+			c.R.Count("related_window_history_calls", 2)
+		}
+	}
+}
+
 func runC04(c *Ctx) {
 	bt := newBatcher(c, judgeVTOTP, 97)
 	c04Cases(c, bt.add)
@@ -609,6 +677,7 @@ func runC04(c *Ctx) {
 	cases := bt.keep
 	c04StepWalk(c)
 	c04RelatedSteps(c)
+	c04WindowRelatives(c)
 
 	// bounded work. (i) functional, affordable skews: a validator that does not refuse answers (true, nil).
 	small := refusedSkewCases(c, []uint64{11, 12, 100, 10000})
@@ -681,6 +750,7 @@ func init() {
 			c03NeighbourHistory(c)
 			c03CounterWalk(c)
 			c03RelatedCounters(c)
+			c03WindowRelatives(c)
 		},
 		Replay: func(c *Ctx, kind string, raw json.RawMessage) error {
 			return replayAs(raw, func(k vhotpCase) { judgeVHOTP(c, k) })
